@@ -12,7 +12,7 @@
    under which the reader never raises on the writer's output (XmiLoadProofs3 / XmiRtTotalProofs). *)
 From Cassis Require Import Base Offsets.
 From Cassis Require Import Heap Schema Canon Lex LexProofs Reach ReachProofs ReachSpec XmiDoc Xmi XmiProofs XmiWf XmiDocOk
-                           XmiResave XmiLoad XmiRt XmiRtProofs XmiRtTotal XmiRtTotalProofs CorrC04 CorrC01 XmiExample.
+                           XmiResave XmiLoad XmiRt XmiRtProofs XmiRtTotal XmiRtTotalProofs XmiLoadCas CorrC04 CorrC01 XmiExample.
 Open Scope Z_scope.
 
 (* enc_dec_feature_xmi: for every feature declaration and every slot value that is well-typed for it (feat_okb), what the
@@ -155,6 +155,41 @@ Theorem C01_xmi_resave_after_load :
 Proof. exact xmi_resave_after_load. Qed.
 Print Assumptions C01_xmi_resave_after_load.
 
+(* [S] The round trip of a CAS that was itself loaded.  XmiLoadCas.cas_of_lcas maps the reader's result (objects in the id-keyed
+   dict, inline collections as slot values) to a CAS of the writer model (arrays and list chains allocated as objects of their
+   own).  PARTIAL: stated under two boolean premises on the mapped CAS - it satisfies wf_rt_totalb and has the canonical content
+   of the loaded CAS - which are the conclusion of load_produces_wf, not proved.  Both are evaluated on every generated case
+   (CorrC01.check_loaded_cas, 150/150 for seeds 0-3), together with: the model writer saves the mapped CAS to the
+   implementation's second to_xmi() document.  Full statement, open:
+     load_produces_wf : reader_okb0 parse s d = true -> total_okb s d = true -> loaded_okb parse s d = true ->
+       load_xmi parse s false d = Ok lc ->
+       exists c2, cas_of_lcas lc = Ok c2 /\ wf_rt_totalb s c2 = true /\
+                  (do x <- canon_xmi s c2 ;; Ok (norm_xmi s x)) = (do y <- canon_loaded s lc ;; Ok (norm_xmi s (restrict_reachable y)))
+   where loaded_okb would have to add what reader_okb0 does not say and wf_inb needs: type names that survive ns_of_type
+   (tname_okb, rtname_okb), kind_agreeb / sofa_decl_okb / is_array_type of the schema, offsets of annotations inside the text of
+   their sofa, a sofaArray that is a primitive array, sofa texts that re-encode; and restrict_reachable drops the structures no
+   view member reaches (the writer does not write them). *)
+Theorem C01_loaded_cas_roundtrip_partial :
+  forall (fmt : flt -> string) (parse : string -> option flt),
+  (forall x, parse (fmt x) = Some x) -> (forall x, tok_ok (fmt x)) ->
+  forall s d lc c2 d2 c3,
+  load_xmi parse s false d = Ok lc -> cas_of_lcas lc = Ok c2 -> wf_rt_totalb s c2 = true ->
+  (do x <- canon_xmi s c2 ;; Ok (norm_xmi s x)) = (do y <- canon_loaded s lc ;; Ok (norm_xmi s y)) ->
+  save_xmi fmt s c2 = Ok (d2, c3) ->
+  exists lc2, load_xmi parse s false d2 = Ok lc2 /\ canon_loaded s lc2 = (do y <- canon_loaded s lc ;; Ok (norm_xmi s y)).
+Proof. exact loaded_cas_roundtrip. Qed.
+Print Assumptions C01_loaded_cas_roundtrip_partial.
+(* ... and when the document was the writer's output for a well-formed CAS, saving the loaded CAS gives its elements again *)
+Theorem C01_loaded_cas_resave_partial :
+  forall (fmt : flt -> string) (parse : string -> option flt),
+  (forall x, parse (fmt x) = Some x) -> (forall x, tok_ok (fmt x)) ->
+  forall s c d c1 lc c2 d2 c3,
+  wf_rtb s c = true -> save_xmi fmt s c = Ok (d, c1) -> load_xmi parse s false d = Ok lc ->
+  cas_of_lcas lc = Ok c2 -> wf_inb s c2 = true -> (do x <- canon_xmi s c2 ;; Ok (norm_xmi s x)) = canon_loaded s lc ->
+  save_xmi fmt s c2 = Ok (d2, c3) -> Permutation d2 d.
+Proof. exact loaded_cas_resave. Qed.
+Print Assumptions C01_loaded_cas_resave_partial.
+
 (* the lexical layer underneath: token lists, decimal integers, hex bytes, UTF-8 *)
 Theorem C01_tokens_roundtrip : forall l, Forall tok_ok l -> split_ws (join l) = l.
 Proof. exact split_join. Qed.
@@ -183,5 +218,12 @@ Example C01_premises_hold :
                    | Ok x, Ok y => ccas_eqb x (norm_xmi ex_schema_rt y) | _, _ => false end
         | _ => false
         end
+      | _ => false end) = true
+  (* [S]: the loaded CAS as a CAS of the writer model satisfies wf_rt_totalb and is saved to the same document *)
+  /\ (match load_xmi (tab_parse ex_ftab) ex_schema_rt false ex_doc with
+      | Ok lc => match cas_of_lcas lc with
+                 | Ok c2 => wf_rt_totalb ex_schema_rt c2 &&
+                            match save_xmi (tab_fmt ex_ftab) ex_schema_rt c2 with Ok (d2, _) => list_eqb xelem_eqb d2 ex_doc | _ => false end
+                 | _ => false end
       | _ => false end) = true.
-Proof. vm_compute. split; reflexivity. Qed.
+Proof. vm_compute. repeat split; reflexivity. Qed.
